@@ -259,14 +259,16 @@ pub fn run(case: &Value, ctx: &Ctx) -> Outcome {
             // the artefact is written by the tool itself, straight to that name
             let dir = format!("{}/files/named_{}_{id:016x}", ctx.work, std::process::id());
             std::fs::create_dir_all(&dir).expect("mkdir");
-            let path = format!("{dir}/{name}");
+            // the tool runs INSIDE that directory and is given the bare name (a file may be called `-`)
+            let path = name.to_string();
             let seed = cli::write_npy(&SEED_SHAPE, &seed_values());
-            let w = cli::sfs(ctx, &["view", "-O", fmt, "--precision", "6", "-o", &path], Some(&seed));
+            let w = cli::sfs_in_dir(ctx, &["view", "-O", fmt, "--precision", "6", "-o", &path], Some(&seed), &dir);
             if !w.ok() {
                 out.fail("toolchain/named/write-failed", json!({"name": name, "fmt": fmt, "stderr": w.stderr}));
             } else {
                 let args: Vec<&str> = match consumer { "view" => vec!["view", "-O", "npy", &path], "fold" => vec!["fold", &path], _ => vec!["stat", "-s", "sum", &path] };
-                let r = cli::sfs(ctx, &args, None);
+                let r = cli::sfs_in_dir(ctx, &args, None, &dir);
+                out.check(std::path::Path::new(&format!("{dir}/{name}")).is_file(), || "toolchain/named/output-file-missing".into(), || json!({"name": name}));
                 out.check(r.ok() && !r.stdout.is_empty(), || format!("toolchain/named/{consumer}-rejected-own-output"), || json!({"name": name, "fmt": fmt, "code": r.code, "stderr": r.stderr}));
                 if r.ok() && consumer == "view" {
                     let ok = cli::parse_npy(&r.stdout).map(|(s, v)| s == SEED_SHAPE.to_vec() && v.iter().zip(seed_values()).all(|(g, x)| (g - x).abs() <= 0.5e-6 + 1e-12)).unwrap_or(false);
